@@ -11,4 +11,6 @@ void SimClockAdvance(uint64_t deltaUs);
 // select() of descriptors owned by the simulator is answered by this handler; it must not block.
 typedef int (*SimSelectHandler)(int nfds, fd_set * r, fd_set * w, fd_set * e, struct timeval * tv);
 extern SimSelectHandler g_simSelectHandler;
+// Installs the MUSCLE_VERIF_HOOKS PRNG seam (GetInsecurePseudoRandomNumber32/64 -> this deterministic stream) and reseeds it.
+void SimRandomReset(uint64_t seed);
 }
